@@ -190,7 +190,7 @@ theorem hstep_abandoned {S S' : HSys} (hA : Abandoned S) (h : HStep S S') : Aban
       intro ha
       rcases ha with h | h
       · rw [hA.left] at h; cases h
-      · rw [hA.code] at h; cases h
+      · exact hA.code h
     have hl : ¬ lastRecv S.sys T := fun hl => hna (hside hl)
     obtain ⟨hn, hb⟩ := step_keeps_pending hs hA.pos hA.pending hl
     exact ⟨hA.left, hA.code, hA.nosel, by simp only [hn]; exact hA.pos, by simp only [hn]; exact hb⟩
